@@ -19,6 +19,7 @@ class PanicPath(Exception): pass
 
 class Eval:
     BODIES = {}          # def id -> body dict (crate functions and closures that may be inlined)
+    SHADOWS = {}         # def id of an inherent cursor method that hides an iterator-trait method -> that trait
     _fid = [0]
     def __init__(s, body, selfdesc, frame=0, top=None, inl=0):
         s.b, s.selfdesc = body, selfdesc
@@ -204,6 +205,11 @@ class Eval:
     def call(s, P, t):
         fn = t["func"].get("fn")
         if not fn: raise Inconclusive("indirect call")
+        # a call that resolves to an inherent method hiding a trait method of the cursor (`self.len()` with an inherent `len`): that
+        # method is judged on its own under the trait method's identity, so here it is the trait call
+        sh_ = Eval.SHADOWS.get(fn.get("resolved") or fn.get("path") or "")
+        if sh_ and s.b.get("id") != (fn.get("resolved") or fn.get("path")):
+            fn = dict(fn, trait=sh_, resolved=None)
         path, name = fn["path"], fn["name"]
         args = [s.operand(P, a) for a in t["args"]]
         NONE = Adt("Option", "None", [])
@@ -1116,7 +1122,15 @@ def override_clause(f, b, typ, R):
                     takes.add("trail")
                 elif "Range<" in txt:
                     takes.add("other")
-            elif fn and fn["name"] in ("split_at", "split_at_mut", "split_first", "split_last", "first", "last", "first_chunk", "last_chunk"):
+            elif fn and fn["name"] in ("split_at", "split_at_mut", "split_at_unchecked", "split_at_mut_unchecked", "split_at_checked") and t.get("dest") and not t["dest"]["proj"]:
+                # `piece.split_at(k).0` are the leading cells of the piece, `.1` the trailing ones
+                used_f = set()
+                for bi2, bl2 in enumerate(bb.blocks):
+                    for pl in _places([bl2["stmts"], bl2["term"]]):
+                        if pl["local"] == t["dest"]["local"] and pl["proj"] and pl["proj"][0]["k"] == "field":
+                            used_f.add(pl["proj"][0].get("i", pl["proj"][0].get("field")))
+                takes.add({(0,): "lead", (1,): "trail"}.get(tuple(sorted(x for x in used_f if x is not None)), "other"))
+            elif fn and fn["name"] in ("split_first", "split_last", "first", "last", "first_chunk", "last_chunk", "split_first_chunk", "split_last_chunk"):
                 takes.add("other")
     for n, arg, where in found:
         if n in ALIGNED_FROM_END:
@@ -1145,6 +1159,7 @@ def r_cursor(f):
     R = Result("R-CURSOR")
     raw = f.raw
     Eval.BODIES = {b["id"]: b for b in raw["bodies"] if b.get("blocks")}
+    Eval.SHADOWS = {b.id: b.shadow_of for b in getattr(f, "shadows", []) if b.self_head in ("Rows", "RowsMut", "Col", "ColMut") and str(b.shadow_of).startswith("core::iter::")}
     nfun = 0
     ninc = 0
     for typ in ("Rows", "RowsMut", "Col", "ColMut"):
